@@ -319,7 +319,7 @@ def c22_1(cx):
         cx.check(unwind_reaches_drop_of(ex, s, lambda t: "ClaimGuard" in t["ty"]), "a panicking execution drops the ClaimGuard (claim released with Panicked/Cancelled)", s, key="claim-on-unwind " + ex.callee(s).split("::")[-1])
 
 
-@ob("C22.4", ["C22", "C20"], "an event callback that unwinds after the state it announces was already changed (or outside the guard that repairs it) leaves a half-applied transition", kind="ORDER")
+@ob("C22.4", ["C22"], also=["C20"], nec="an event callback that unwinds after the state it announces was already changed (or outside the guard that repairs it) leaves a half-applied transition", kind="ORDER")
 def c22_4(cx):
     """mark_as_verified: the event precedes verified_at.store; delete_entity: the DidDiscard event precedes the lock-word swap; cancel_others: the event is raised inside the CancellationFlagGuard."""
     m = cx.fn(r"^function::memo::MemoHeader::mark_as_verified$")
@@ -331,6 +331,7 @@ def c22_4(cx):
     sw = cx.one_call(d, r"^revision::OptionalAtomicRevision::swap$", "swap in delete_entity")
     for e in evs:
         cx.check(not d.reaches(sw, e), "DidDiscard is raised before the struct is tombstoned", e, key="discard-event-first")
+    cx._only = {"C22", "C20"}
     c = cx.fn(r"^storage::Storage::<Db>::cancel_others$")
     evs = cx.some_calls(c, r"^zalsa::Zalsa::event$", 1, "event in cancel_others")
     g = cx.one_call(c, r"CancellationFlagGuard::<'_>::new$|CancellationFlagGuard.*::new$", "CancellationFlagGuard::new")
